@@ -223,6 +223,9 @@ def expected_elems(hid, conf, op):
     return None
 
 
+STD_LEVEL = {PURPOSE: 0, COIN: 1, ACCOUNT: 2, CHANGE: 3, ADDR: 4, DEFPATH: 0}   # BIP-44, independent of the source
+
+
 def direct_seq(a):
     hid, name, ops = a
     conf = conf_of(hid, name)
@@ -232,6 +235,16 @@ def direct_seq(a):
     for n in range(1, len(w)):
         obj, rec, _ = w[n]
         op = _key([ops[n - 1]])[0]
+        if op[0] in STD_LEVEL:
+            before = w[n - 1][1][1] if w[n - 1][1] is not None else 0
+            depth_err = rec[0] == CODE_OF["Bip44DepthError"]
+            if rec[0] == 0 and before != STD_LEVEL[op[0]]:
+                return "operation %d succeeded at depth %d, its level is %d" % (op[0], before, STD_LEVEL[op[0]])
+            if depth_err and before == STD_LEVEL[op[0]]:
+                return "operation %d raised Bip44DepthError at its own level %d" % (op[0], before)
+            if not depth_err and rec[0] != 0 and before != STD_LEVEL[op[0]] and not (op[0] == CHANGE and rec[0] == CODE_OF["TypeError"]):
+                return "operation %d at depth %d (its level is %d) raised %s, not Bip44DepthError" % (
+                    op[0], before, STD_LEVEL[op[0]], EXN_NAMES.get(rec[0], rec[0]))
         if rec[0] == 0 and lineage:
             e = expected_elems(hid, conf, op)
             if e is None:
